@@ -2,7 +2,7 @@ import SleapVerif.Model.Proto
 import SleapVerif.Model.TrainTrace
 /-! Driver for C19.
 Lines (flags: model ∈ single_instance|centroid|centered_instance|bottomup, fw ∈ torch_dataset|torch_dataset_np_chunks,
-four booleans wandb ckpt structured delete, then `<n> b1 … bn` = per-epoch "val loss improved"):
+five booleans wandb ckpt structured delete save_last, then `<n> b1 … bn` = per-epoch "val loss improved"):
 
 `trace <repaired|asis|keyfixed> <flags> <rounds>`  →  `ok e1 e2 …`          (events, see `Event.str`)
 `fs    <repaired|asis> <flags> <rounds>`  →  `ok s0 | s1 | … | sN` (file system at every crash point, `-` = empty)
@@ -10,6 +10,8 @@ four booleans wandb ckpt structured delete, then `<n> b1 … bn` = per-epoch "va
 `fsr    <repaired|asis> <flags1> <rounds1> <flags2> <rounds2>` →  file system at every crash point of run 2,
                                                                   starting from what run 1 (`run1Flags flags1`) left
 `traces <ver> <flagsA> <roundsA> <flagsB> <roundsB>` / `fss …` →  run B started in run A's folder (same save_ckpt_path)
+`tracea` / `fsa <ver> <flags> <rounds>`                         →  run aborted inside fit after `rounds`
+`tracex` / `fsx <k> <ver> <flagsA> <roundsA> <flagsB> <roundsB>` →  run B after run A died at its crash point k
 -/
 open SleapVerif SleapVerif.Proto SleapVerif.TrainTrace
 
@@ -37,8 +39,9 @@ def pFlagsRounds : P (Flags × List Bool) := do
   let c ← Proto.bool
   let s ← Proto.bool
   let d ← Proto.bool
+  let l ← Proto.bool
   let r ← listOf Proto.bool
-  pure (⟨m, fw, w, c, s, d⟩, r)
+  pure (⟨m, fw, w, c, s, d, l⟩, r)
 
 def pCase2 : P (Version × (Flags × List Bool) × (Flags × List Bool)) := do
   let v ← pVersion
@@ -57,8 +60,9 @@ def pCase : P (Version × Flags × List Bool) := do
   let c ← Proto.bool
   let s ← Proto.bool
   let d ← Proto.bool
+  let l ← Proto.bool
   let r ← listOf Proto.bool
-  pure (v, ⟨m, fw, w, c, s, d⟩, r)
+  pure (v, ⟨m, fw, w, c, s, d, l⟩, r)
 
 def handle (line : String) : String :=
   match tokens line with
@@ -86,13 +90,34 @@ def handle (line : String) : String :=
     | none => "bad-op"
   | "traces" :: rest =>
     match runP pCase2 rest with
-    | some (v, (fA, _), (fB, rB)) => "ok " ++ " ".intercalate ((traceS v fA.ckpt fB rB).map Event.str)
+    | some (v, (fA, _), (fB, rB)) =>
+      "ok " ++ " ".intercalate ((traceS v (leftBest fA) (leftLast fA) fB rB).map Event.str)
     | none => "bad-op"
   | "fss" :: rest =>
     match runP pCase2 rest with
     | some (v, (fA, rA), (fB, rB)) =>
-      showStates ((List.range ((traceS v fA.ckpt fB rB).length + 1)).map fun n => fsSameAt v fA rA fB rB n)
+      showStates ((List.range ((traceS v (leftBest fA) (leftLast fA) fB rB).length + 1)).map
+        fun n => fsSameAt v fA rA fB rB n)
     | none => "bad-op"
+  | "tracea" :: rest =>      -- aborted inside fit after the given rounds
+    match runP pCase rest with
+    | some (v, f, r) => "ok " ++ " ".intercalate ((traceAbort v f r).map Event.str)
+    | none => "bad-op"
+  | "fsa" :: rest =>
+    match runP pCase rest with
+    | some (v, f, r) =>
+      showStates ((List.range ((traceAbort v f r).length + 1)).map fun n => fsAt (traceAbort v f r) n)
+    | none => "bad-op"
+  | "tracex" :: k :: rest =>  -- run B after run A died at its crash point k (before any checkpoint)
+    match k.toNat?, runP pCase2 rest with
+    | some _, some (v, _, (fB, rB)) => "ok " ++ " ".intercalate ((traceS v false false fB rB).map Event.str)
+    | _, _ => "bad-op"
+  | "fsx" :: k :: rest =>
+    match k.toNat?, runP pCase2 rest with
+    | some k, some (v, (fA, rA), (fB, rB)) =>
+      showStates ((List.range ((traceS v false false fB rB).length + 1)).map
+        fun n => fsCrashedAt v fA rA k false false fB rB n)
+    | _, _ => "bad-op"
   | _ => "bad-op"
 
 def main : IO Unit := mainLoop' handle
